@@ -22,7 +22,7 @@ RULE = ("Cases: initial content as in C11 but without line breaks inside lines (
         "Distinct = distinct case JSON.")
 EXPLANATION = ""
 ASSUMPTIONS = ["line contents contain no line breaks (the statement's domain)", "PYTHONUTF8=1"]
-FLOORS = {"mixed-view-save": (0.15, None), "shifted-file-backed-read": (0.15, None)}
+FLOORS = {"mixed-view-save": (0.11, None), "shifted-file-backed-read": (0.077, None)}
 SHARDS = {"quick": 12, "thorough": 14}
 
 OPS = ["get", "insert", "get", "del", "save", "set", "get", "slice", "insert", "save", "get", "del", "append", "extend", "pop", "remove",
